@@ -86,6 +86,34 @@ Arguments final_dict {gate state} apply p1 proj flipx tol s0 p.
 Arguments sampler_valid {gate state} c.
 Arguments sampler_run {gate state} apply p1 proj flipx tol cs.
 
+(* number of measure/reset instructions: the a-priori size of the truncation loss (Proofs: loss <= 2 * this * tol) *)
+Fixpoint count_nonunitary {gate : Type} (p : prog gate) : nat :=
+  match p with
+  | [] => 0
+  | PMeasure _ _ :: r => S (count_nonunitary r)
+  | PReset _ :: r => S (count_nonunitary r)
+  | _ :: r => count_nonunitary r
+  end.
+
+(* well-formed programs for the QSim instance: what QuantumCircuit guarantees (operand indices in range, distinct
+   operands, arity of the gate).  QSim's functions are total and return SOME vector on ill-formed operands; the
+   statements about the QSim instance are meaningful only under this predicate (the harness only emits such programs
+   and the checker tests it). *)
+Definition gate_arity (g : qgate) : nat :=
+  match g with Gcx | Gcz | Gswap => 2 | Gccx => 3 | _ => 1 end.
+Fixpoint nodupb (l : list nat) : bool :=
+  match l with [] => true | x :: r => negb (existsb (Nat.eqb x) r) && nodupb r end.
+Definition wf_instr (nq ncl : nat) (i : pinstr qgate) : bool :=
+  match i with
+  | PGate g qs => Nat.eqb (length qs) (gate_arity g) && forallb (fun q => Nat.ltb q nq) qs && nodupb qs
+  | PMeasure q c => Nat.ltb q nq && Nat.ltb c ncl
+  | PReset q => Nat.ltb q nq
+  | PBarrier qs => forallb (fun q => Nat.ltb q nq) qs && nodupb qs
+  | PCond => true
+  | PGateWithClbit => true
+  end.
+Definition wf_qprog (nq ncl : nat) (p : qprog) : bool := forallb (wf_instr nq ncl) p.
+
 (* QSim instance *)
 Definition qtree (tol : Q) (nq : nat) (p : qprog) : list (N * (Q * vec)) :=
   tree qapply qp1 qproj qflipx tol p 0%N 1%Q (init_vec nq).
